@@ -33,7 +33,10 @@ func VP_C17_Add() {
 		ignLine = dir + "/"
 	}
 	// a second top-level file that is never added by name and that no rule excludes: a neighbour of the ignored files
-	extra := vpComp("xt", 1)
+	extra := "~nb" // (fixed name when the bound switches the free neighbour off)
+	if zzvp.Param("neighbour", 1) == 1 {
+		extra = vpComp("xt", 1)
+	}
 	zzvp.Assume(extra != plain && extra != dir && extra != top && extra != withExt && !(len(extra) > len(ext) && extra[len(extra)-len(ext)-1:] == "."+ext))
 	zzvp.WriteFile(w+"/"+extra, []byte("x"))
 	zzvp.WriteFile(w+"/"+plain, []byte("p"))
